@@ -15,7 +15,19 @@ func init() {
 			add("verifH_c05_booth", P("w", 6))
 			add("verifH_c05_booth", P("w", 5))
 			add("verifH_c05_basemult", P())
-			add("verifH_c05_scalarmult", P())
+			if tier != "quick" {
+				add("verifH_c05_scalarmult", P())
+			}
+			for _, n := range []int{0, 1, 32, 33, 64, 65, 66} {
+				c := driver.Case{Harness: "verifH_c05_decode", Pkg: "internal/sm2ec", Config: "asm", Params: P("n", n), Overrides: ov, MaxUnwind: 3000, TimeoutS: 1200, Portfolio: true}
+				if n == 1 || n == 33 || n == 65 {
+					c.MustReach = []string{"accepted"}
+				}
+				cs = append(cs, c)
+			}
+			for which := 0; which <= 1; which++ {
+				cs = append(cs, driver.Case{Harness: "verifH_c05_addlemma", Pkg: "internal/sm2ec", Config: "asm", Params: P("which", which), Overrides: ov, MaxUnwind: 3000, TimeoutS: 1200, Portfolio: true})
+			}
 			return cs
 		},
 		Functions:   []string{"internal/sm2ec.boothW5, boothW6", "(*SM2P256Point).ScalarBaseMult, p256BaseMult", "(*SM2P256Point).ScalarMult, p256ScalarMult"},
